@@ -53,13 +53,14 @@ def _poisoned(cls, attrs, key):
         out = {}
         est = a.self
         stale = [k for k in attrs if isinstance(getattr(est, k, None), Poison)]
-        out["every_fitted_attribute_is_replaced_by_the_new_fit"] = not stale
+        out["history.every_fitted_attribute_is_replaced_by_the_new_fit"] = not stale
         if stale:
             return out
+        out["history.fit_result_independent_of_the_previous_fit"] = True
         try:
             out.update(base_ensures(self, a, r))
         except PoisonUsed:
-            out["fit_result_independent_of_the_previous_fit"] = False
+            out["history.fit_result_independent_of_the_previous_fit"] = False
         return out
 
     Refit.setup, Refit.ensures = setup, ensures
@@ -127,12 +128,12 @@ class EstimatorRoundtrip(Contract):
 
     def ensures(self, a, r):
         est, got, twin = r
-        out = {"get_params_returns_every_constructor_argument_as_given": set(got) == set(a.params) and all(got[k] is a.params[k] for k in a.params)}
+        out = {"history.get_params_returns_every_constructor_argument_as_given": set(got) == set(a.params) and all(got[k] is a.params[k] for k in a.params)}
         same = True
         for k, v in vars(est).items():
             if k not in vars(twin) or vars(twin)[k] is not v:
                 same = False
-        out["rebuilding_from_get_params_gives_identical_attributes"] = same and set(vars(est)) == set(vars(twin))
+        out["history.rebuilding_from_get_params_gives_identical_attributes"] = same and set(vars(est)) == set(vars(twin))
         fitted = [k for k in vars(est) if k.endswith("_") and not k.startswith("_")]
-        out["constructor_sets_no_fitted_state"] = not fitted
+        out["history.constructor_sets_no_fitted_state"] = not fitted
         return out
